@@ -101,3 +101,27 @@ fn("hypercorn.utils:raise_shutdown", params={"shutdown_event": "callable{record:
    raises={"ShutdownError": {"when": "True", "ensures": [("C15.raise_shutdown.waits-once", "n_emitted('trigger_calls') == 1", "C15,C18")]}},
    ensures=[("C15.raise_shutdown.never-returns", "False", "C15,C18")],
    props=("C15", "C18"))
+
+# hypercorn.asyncio.serve / hypercorn.trio.serve: the programmatic entry points.  The application is
+# wrapped with the configured WSGI body limit and the detected / requested mode, and the worker gets
+# exactly that wrapper, the caller's configuration and the caller's shutdown trigger (C15: "once
+# shutdown is triggered" -- the trigger that counts is the one the caller supplied; C17: the limit).
+for _SV in ("hypercorn.asyncio:serve", "hypercorn.trio:serve"):
+    fn(_SV, params=dict({"app": "opaque", "config": "obj hypercorn.config:Config", "shutdown_trigger": "opt callable{record:trigger_calls;coro:1}", "mode": "opt str"},
+                        **({"task_status": "obj trio:TaskStatus"} if "trio" in _SV else {})),
+       requires=[("serve.pre.timeouts", "config.startup_timeout >= 0 and config.shutdown_timeout >= 0 and config.graceful_timeout >= 0 and config.max_requests_jitter >= 0")],
+       raises={"LifespanTimeoutError": None, "BaseExceptionGroup": None, "Exception": None, "asyncio.CancelledError": None},
+       ensures=[
+           ("C17.serve.wraps", "count_calls('wrap_app') == 1 and same(call_args('wrap_app')[0], app) and call_args('wrap_app')[1] == config.wsgi_max_body_size and call_args('wrap_app')[2] == mode", "C17,C15"),
+           ("C15.serve.worker", "count_calls('worker_serve') == 1 and same(call_args('worker_serve')[0], call_result('wrap_app')) and same(call_args('worker_serve')[1], config) and ((shutdown_trigger is None and call_kwarg('worker_serve', 'shutdown_trigger') is None) or same(call_kwarg('worker_serve', 'shutdown_trigger'), shutdown_trigger))", "C15,C17"),
+       ],
+       props=("C15", "C17"))
+
+# utils.check_multiprocess_shutdown_event: the shutdown trigger of a worker process (the master's
+# shutdown event polled from the worker's loop).  It returns -- which is what triggers the graceful
+# shutdown -- only when the event is set, and it is not a busy loop: every round that finds the
+# event clear sleeps.
+fn("hypercorn.utils:check_multiprocess_shutdown_event", params={"shutdown_event": "obj hypercorn.typing:Event", "sleep": "callable{record:sleeps;yields:1;coro:1}"},
+   loops={0: {"iter_ensures": [("C15.trigger.poll-sleeps", "n_after_gap('sleeps') == 1", "C15")]}},
+   ensures=[("C15.trigger.only-when-set", "shutdown_event.is_set()", "C15")],
+   props=("C15",))
